@@ -111,6 +111,11 @@ class Run:
     def violations(self) -> list[Obligation]:
         return [o for o in self.obligations if o.verdict == VIOLATION]
 
+    def new_violations(self) -> list[Obligation]:
+        """violations that are not listed as open findings in known_findings.json"""
+        open_keys = {(k["property"], k["rule"], k["construct"], k["stmt_key"]) for k in load_known() if k.get("status") == "open"}
+        return [o for o in self.violations() if o.key(self.prop) not in open_keys]
+
     def count(self, verdict: str) -> int:
         return sum(1 for o in self.obligations if o.verdict == verdict)
 
